@@ -348,6 +348,51 @@ func verifControlCNT1CopyBad(in io.Reader, n int) ([]string, error) {
 	return out, nil
 }
 
+// TOK-2: a default is substituted for a column the line does not have
+func verifControlTOK2Bad(in io.Reader, n int) ([]string, error) {
+	s := bufio.NewScanner(in)
+	out := make([]string, 0, n)
+	for len(out) < n {
+		if !s.Scan() {
+			return nil, io.ErrUnexpectedEOF
+		}
+		f := strings.Fields(s.Text())
+		if len(f) < 1 {
+			return nil, errors.New("empty line")
+		}
+		alpha := "255"
+		if 1 < len(f) {
+			alpha = f[1]
+		}
+		out = append(out, f[0]+alpha)
+	}
+	return out, nil
+}
+
+// TOK-2: the column helper answers a constant with a nil error when the column is missing
+func verifControlCol(f []string, k int) (string, error) {
+	if k >= len(f) {
+		return "0", nil
+	}
+	return f[k], nil
+}
+
+func verifControlTOK2RetBad(in io.Reader, n int) ([]string, error) {
+	s := bufio.NewScanner(in)
+	out := make([]string, 0, n)
+	for len(out) < n {
+		if !s.Scan() {
+			return nil, io.ErrUnexpectedEOF
+		}
+		v, err := verifControlCol(strings.Fields(s.Text()), 2)
+		if err != nil {
+			return nil, err
+		}
+		out = append(out, v)
+	}
+	return out, nil
+}
+
 // ---- must stay silent ------------------------------------------------------
 
 // checked Scan, ErrUnexpectedEOF, if err := …; err != nil, fmt.Errorf wrapping, continue after a consumed line
@@ -516,6 +561,35 @@ func verifControlGood11(in io.Reader, n int) ([]string, error) {
 		return nil, fmt.Errorf("input ends after line %d", lineNo)
 	}
 	return out, nil
+}
+
+// per-column helper that fails on a missing column; an optional trailing column is skipped, not defaulted
+func verifControlCol13(f []string, k int) (string, error) {
+	if k >= len(f) {
+		return "", fmt.Errorf("no column %d: %w", k, io.ErrUnexpectedEOF)
+	}
+	return f[k], nil
+}
+
+func verifControlGood13(in io.Reader, n int) ([]string, []string, error) {
+	s := bufio.NewScanner(in)
+	out := make([]string, 0, n)
+	var extra []string
+	for len(out) < n {
+		if !s.Scan() {
+			return nil, nil, io.ErrUnexpectedEOF
+		}
+		f := strings.Fields(s.Text())
+		v, err := verifControlCol13(f, 0)
+		if err != nil {
+			return nil, nil, err
+		}
+		if len(f) > 1 {
+			extra = append(extra, f[1])
+		}
+		out = append(out, v)
+	}
+	return out, extra, nil
 }
 
 // error kept in a variable assigned in several places, checked once; raw Read with n used
